@@ -2301,3 +2301,107 @@ func lemmaForwardSession(raw *rawEnvelope) (e *Session, e3 *Session, accepted bo
 //@   props C12
 //@   requires c != nil && c.conn != nil
 //@   modifies nothing
+
+// ---------------------------------------------------------------------------
+// C17 - handlers see their own session; listen (dispatch loop): C04 C06 C17 C20
+// ---------------------------------------------------------------------------
+
+//@ spec fn isWithValue(c context.Context) bool = uninterpreted
+//@ spec fn ctxParent(c context.Context) context.Context = uninterpreted
+//@ spec fn ctxKey(c context.Context) interface{} = uninterpreted
+//@ spec fn ctxVal(c context.Context) interface{} = uninterpreted
+//@ spec fn baseValue(c context.Context, k interface{}) interface{} = uninterpreted
+//@ spec fn rec ctxValue(c context.Context, k interface{}) interface{} = ite(isWithValue(c), ite(ctxKey(c) == k, ctxVal(c), ctxValue(ctxParent(c), k)), baseValue(c, k))
+
+// The three context keys are package-level variables initialised with distinct
+// strings and never written afterwards.
+//@ globalinv contextKeySessionID == contextKey("sessionID") && contextKeySessionRemoteNode == contextKey("sessionRemoteNode") && contextKeySessionLocalNode == contextKey("sessionLocalNode")
+
+//@ spec fn ctxSID(ctx context.Context) interface{} = ctxValue(ctx, box(contextKeySessionID))
+//@ spec fn ctxRemote(ctx context.Context) interface{} = ctxValue(ctx, box(contextKeySessionRemoteNode))
+//@ spec fn ctxLocal(ctx context.Context) interface{} = ctxValue(ctx, box(contextKeySessionLocalNode))
+//@ spec fn ctxOf(ctx context.Context, c *channel) bool = istype(ctxSID(ctx), string) && ctxSID(ctx).(string) == c.sessionID && istype(ctxRemote(ctx), Node) && ctxRemote(ctx).(Node) == c.remoteNode && istype(ctxLocal(ctx), Node) && ctxLocal(ctx).(Node) == c.localNode
+
+//@ func sessionContext
+//@   props C17
+//@   requires ctx != nil && c != nil
+//@   modifies nothing
+//@   ensures [C17] @identifies result != nil && ctxOf(result, c)
+
+//@ func ContextSessionID
+//@   props C17
+//@   requires ctx != nil
+//@   modifies nothing
+//@   ensures [C17] result1 == istype(ctxSID(ctx), string)
+//@   ensures [C17] result1 ==> result0 == ctxSID(ctx).(string)
+
+//@ func ContextSessionRemoteNode
+//@   props C17
+//@   requires ctx != nil
+//@   modifies nothing
+//@   ensures [C17] result1 == istype(ctxRemote(ctx), Node)
+//@   ensures [C17] result1 ==> result0 == ctxRemote(ctx).(Node)
+
+//@ func ContextSessionLocalNode
+//@   props C17
+//@   requires ctx != nil
+//@   modifies nothing
+//@   ensures [C17] result1 == istype(ctxLocal(ctx), Node)
+//@   ensures [C17] result1 ==> result0 == ctxLocal(ctx).(Node)
+
+//@ func (*channel).MsgChan
+//@   props C04 C17
+//@   requires c != nil
+//@   returns-chan channel.inMsgChan
+//@   modifies nothing
+//@ func (*channel).NotChan
+//@   props C04 C17
+//@   requires c != nil
+//@   returns-chan channel.inNotChan
+//@   modifies nothing
+//@ func (*channel).ReqCmdChan
+//@   props C04 C17
+//@   requires c != nil
+//@   returns-chan channel.inReqCmdChan
+//@   modifies nothing
+//@ func (*channel).RespCmdChan
+//@   props C04 C17
+//@   requires c != nil
+//@   returns-chan channel.inRespCmdChan
+//@   modifies nothing
+//@ func (*channel).RcvDone
+//@   props C04 C17
+//@   requires c != nil
+//@   modifies nothing
+
+//@ spec fn muxOK(m *EnvelopeMux) bool = m != nil && nonNilMsg(m.msgHandlers, 0) && nonNilNot(m.notHandlers, 0) && nonNilReqCmd(m.reqCmdHandlers, 0) && nonNilRespCmd(m.respCmdHandlers, 0)
+
+//@ func (*EnvelopeMux).listen
+//@   props C04 C06 C17 C20
+//@   requires muxOK(m) && c != nil && ctx != nil && c.transport != nil
+//@   modifies ghosts
+//@   loop 0 invariant muxOK(m) && c.transport != nil
+//@   oncall [C17] (*EnvelopeMux).handleMessage : ctxOf(a_ctx, c) && istype(a_s, *channel) && a_s.(*channel) == c
+//@   oncall [C17] (*EnvelopeMux).handleNotification : ctxOf(a_ctx, c)
+//@   oncall [C17] (*EnvelopeMux).handleRequestCommand : ctxOf(a_ctx, c) && istype(a_s, *channel) && a_s.(*channel) == c
+//@   oncall [C17] (*EnvelopeMux).handleResponseCommand : ctxOf(a_ctx, c) && istype(a_s, *channel) && a_s.(*channel) == c
+//@   ensures [C06] @guard !(old(transportOK(c)) && old(c.state) == SessionStateEstablished) ==> result != nil
+//@   checks [C20] @handlererrorstops nerr("(*EnvelopeMux).handleMessage") + nerr("(*EnvelopeMux).handleNotification") + nerr("(*EnvelopeMux).handleRequestCommand") + nerr("(*EnvelopeMux).handleResponseCommand") > 0 ==> result != nil
+//@   loop 0 step [C04,C20] @onedispatch nsent(channel.inMsgChan) == 0 && nerr("(*EnvelopeMux).handleMessage") + nerr("(*EnvelopeMux).handleNotification") + nerr("(*EnvelopeMux).handleRequestCommand") + nerr("(*EnvelopeMux).handleResponseCommand") == 0  ## an iteration that loops back dispatched without error (an unmatched envelope does not leave the loop)
+
+// ---- the server's connection loop: one channel, one fresh id, one serving goroutine per transport ----
+
+//@ struct Server
+//@   chaninv transportChan : v != nil && !payloadnil(v) && v.nSentSes == 0 && v.nRecv == 0
+
+//@ func (*Server).consumeTransports
+//@   props C17
+//@   requires srv != nil && srv.config != nil && srv.mux != nil && ctx != nil
+//@   requires srv.config.Node.Name != "" && srv.config.Node.Domain != "" && srv.config.Node.Instance != ""
+//@   modifies nothing
+//@   loop 0 invariant srv.config != nil && srv.mux != nil && srv.config.Node.Name != "" && srv.config.Node.Domain != "" && srv.config.Node.Instance != ""
+//@   oncall [C17] NewServerChannel : a_sessionID != "" && a_serverNode == srv.config.Node
+
+//@ func (*Server).consumeTransports$1
+//@   props C17
+//@   trusted the spawned goroutine runs handleChannel (verified separately) with the channel created for this transport
